@@ -1643,10 +1643,18 @@ fn gen_c18_case(r: &mut Rng, stats: &mut HashMap<String, usize>) -> (String, Vec
     };
     // failing chunk: some good statements (also a new register / gate), then the violation
     let p2 = qgen::gen_program(r, 5, true);
-    let (bad, variant) = qgen::plant(r, &p.env);
+    let (mut bad, mut variant) = qgen::plant(r, &p.env);
     let npre = r.below(4);
     let mut failing: Vec<String> = Vec::new();
     let q0 = p.env.qubits()[0].clone();
+    // the chunk is refused in the middle of expanding a gate that has parameters (its body applies an unknown gate after
+    // using the parameter): nothing of that expansion - not even the name of the parameter - may be visible afterwards
+    let pleak = r.chance(1, 6);
+    let pname = *r.pick(&["theta", "kappa", "w"][..]);
+    if pleak {
+        bad = format!("gate pleak({pname}) a {{ rx({pname}) a; nosuchgate a; }}\npleak(0.5) {q0};");
+        variant = "UnknownGate";
+    }
     let fresh_reg = r.chance(1, 2);
     let fresh_gate = r.chance(1, 2);
     if fresh_reg {
@@ -1698,6 +1706,12 @@ fn gen_c18_case(r: &mut Rng, stats: &mut HashMap<String, usize>) -> (String, Vec
         cmds.push(format!("iadd {}", hex("h fresh[0];")));
         cmds.push("iexpect NoQReg".into());
         *stats.entry("probe.reg".into()).or_default() += 1;
+    }
+    if pleak {
+        cmds.push(format!("iadd {}", hex(&format!("rx({pname}) {q0};"))));
+        cmds.push("iexpect UnevaluatedArgument".into());
+        cmds.push("iunchanged".into());
+        *stats.entry("probe.param".into()).or_default() += 1;
     }
     if !cont.is_empty() {
         cmds.push(format!("iadd {}", hex(&join_src(&cont))));
